@@ -460,6 +460,12 @@ func (e *Env) call(x *ast.CallExpr) Val {
 			if d := e.c.P.CS.Defs["stubs."+id.Name]; d != nil {
 				return e.expand(d, x.Args)
 			}
+			if u := e.c.P.CS.UFuns[e.pkgKey()+"."+id.Name]; u != nil {
+				return e.ufun(u, x.Args)
+			}
+			if u := e.c.P.CS.UFuns["stubs."+id.Name]; u != nil {
+				return e.ufun(u, x.Args)
+			}
 			// basic type conversion
 			if bt := basicTypeByName(id.Name); bt != nil {
 				v := e.eval(x.Args[0])
@@ -477,6 +483,9 @@ func (e *Env) call(x *ast.CallExpr) Val {
 			if p := e.c.P.lookupPkgByName(e.pkg, id.Name); p != nil {
 				if d := e.c.P.CS.Defs[pkgKeyOf(p.Path())+"."+se.Sel.Name]; d != nil {
 					return e.expand(d, x.Args)
+				}
+				if u := e.c.P.CS.UFuns[pkgKeyOf(p.Path())+"."+se.Sel.Name]; u != nil {
+					return e.ufun(u, x.Args)
 				}
 				if tn, ok := p.Scope().Lookup(se.Sel.Name).(*types.TypeName); ok {
 					return e.convert(e.eval(x.Args[0]), tn.Type())
@@ -1072,4 +1081,54 @@ func isLemmaUse(x ast.Expr) bool {
 		}
 	}
 	return false
+}
+
+// ufun: application of an uninterpreted specification function. Its axioms
+// (`axiom` clauses of the same package) are assumed on first use.
+func (e *Env) ufun(u *UFun, args []ast.Expr) Val {
+	c := e.c
+	name := "uf." + smtSym(u.Pkg+"."+u.Name)
+	sortOf := func(t string) (string, types.Type) {
+		switch t {
+		case "string":
+			return sStr, tStr
+		case "bool":
+			return sBool, tBool
+		}
+		return sInt, tInt
+	}
+	var sorts []string
+	for _, p := range u.Params {
+		so, _ := sortOf(p)
+		sorts = append(sorts, so)
+	}
+	rs, rt := sortOf(u.Result)
+	c.sc.declareFun(name, sorts, rs)
+	if len(args) != len(u.Params) {
+		e.fail("%s expects %d arguments", u.Name, len(u.Params))
+	}
+	var ts []T
+	for _, a := range args {
+		v := e.eval(a)
+		ts = append(ts, v.L[0])
+	}
+	if !c.factsDone["axioms"] {
+		c.factsDone["axioms"] = true
+		own := ""
+		if c.topFrame != nil && c.topFrame.pkg != nil {
+			own = pkgKeyOf(c.topFrame.pkg.Path())
+		}
+		for _, ax := range c.P.CS.Axioms {
+			if ax.Pkg != "stubs" && ax.Pkg != own && ax.Pkg != u.Pkg {
+				continue
+			}
+			ae := &Env{c: c, vars: map[string]Val{}, st: e.st, at: fmt.Sprintf("%s:%d", ax.File, ax.Line)}
+			if p := c.P.Pkgs[ax.Pkg]; p != nil {
+				ae.pkg = p.Pkg
+			}
+			c.trust("axiom (" + ax.Pkg + "): " + ax.Text)
+			c.sc.assume(ae.evalBool(ax.Expr))
+		}
+	}
+	return Val{Typ: rt, L: []T{app(name, ts...)}}
 }
